@@ -328,9 +328,9 @@ package seccomp
 //@   opaque fwdOK hopeOK pendIn endJump noJumpAtEnd hopeKeep endBelow
 //@   let NE0 = riS(*p) && ne(*p) && !has(p.labels, action) && pendIn(*p, ls1(action)) && eb(p)
 //@   ensures @ne {C07!} NE0 && sem ==> ne(*p) && !has(p.labels, action) && pendIn(*p, ls1(action)) && eb(p)
-//@   use endBelowJump(*p, action, p.nextLabel, p.nextLabel + 1) at after call Program.JmpIfTrue#1
-//@   use pendMono(*p, ls1(action), ls2(action, nextSyscall)) at before call Program.JmpIfTrue#2
-//@   use endBelowJump(*p, nextSyscall, p.nextLabel, p.nextLabel + 1) at after call Program.JmpIfTrue#2
+//@   use pendMono(*p, ls1(action), ls2(action, nextSyscall)) at after assign nextSyscall#1
+// after every JmpIfTrue the jump at the end refers to the label it was given and to the label just created
+//@   use endBelowJump(*p, call.arg2, p.nextLabel, p.nextLabel + 1) at after call Program.JmpIfTrue#*
 //@   use pendMono(*p, ls2(action, nextSyscall), ls3(action, nextSyscall, noMatch)) at before loop 2
 //@   use endBelowMono(*p, noMatch, p.nextLabel + 1) at before loop 2
 //@   use pendMono(*p, ls3(action, nextSyscall, noMatch), ls4(action, nextSyscall, noMatch, nextArgument)) at after assign nextArgument#1
@@ -808,10 +808,7 @@ package seccomp
 //@   assert @ne_mt {C07!} NE0 ==> ghost.mt[i] == firstIdxAbove(old(p.labels)[old(p.jumps)[i].trueLabel], old(p.jumps)[i].index, 0) at after assign longFalse#1
 //@   assert @ne_mf {C07!} NE0 ==> ghost.mf[i] == firstIdxAbove(old(p.labels)[old(p.jumps)[i].falseLabel], old(p.jumps)[i].index, 0) at after assign longFalse#1
 //@   assert @ne_skips {C07!} NE0 ==> skipTrue >= 1 || skipFalse >= 1 at after assign longFalse#1
-//@   use monoShift(jump.index + 1) at before call Program.insertBridge#1
-//@   use monoShift(jump.index + 1) at before call Program.insertBridge#2
-//@   use monoShift(jump.index + 1) at before call Program.insertBridge#3
-//@   use monoShift(jump.index + 1) at before call Program.insertBridge#4
+//@   use monoShift(jump.index + 1) at before call Program.insertBridge#*
 //@   let n0 = len(p.instructions)
 //@   let nJ = len(p.jumps)
 //@   loop 1 match len(p.jumps) - 1
@@ -842,12 +839,12 @@ package seccomp
 //@   assert @bt_old forall(k, i + 1, nJ, resBT(old(*p), p.instructions, k)) at loop 1 end
 //@   assert @bf_new resBF(old(*p), p.instructions, i) at loop 1 end
 //@   assert @bf_old forall(k, i + 1, nJ, resBF(old(*p), p.instructions, k)) at loop 1 end
-//@   ghost ghost.mt = store(ghost.mt, i, firstIdxAbove(p.labels[jump.trueLabel], jump.index, 0)) at after call Program.computeSkipN#1
-//@   ghost ghost.mf = store(ghost.mf, i, firstIdxAbove(p.labels[jump.falseLabel], jump.index, 0)) at after call Program.computeSkipN#2
-//@   ghost ghost.wm = ghost.mf[i] at before call Program.insertBridge#1
-//@   ghost ghost.wm = ghost.mt[i] at before call Program.insertBridge#2
-//@   ghost ghost.wm = ghost.mt[i] at before call Program.insertBridge#3
-//@   ghost ghost.wm = ghost.mf[i] at before call Program.insertBridge#4
+// the ghost bookkeeping is attached to what is computed, not to the order of the statements: the witness of a branch is
+// recorded where its skip is assigned, and every call of insertBridge names the witness that belongs to the label it is
+// given (if both labels are the same, so are the two witnesses)
+//@   ghost ghost.mt = store(ghost.mt, i, firstIdxAbove(p.labels[jump.trueLabel], jump.index, 0)) at after assign skipTrue#1
+//@   ghost ghost.mf = store(ghost.mf, i, firstIdxAbove(p.labels[jump.falseLabel], jump.index, 0)) at after assign skipFalse#1
+//@   ghost ghost.wm = ite(call.arg2 == jump.trueLabel, ghost.mt[i], ghost.mf[i]) at before call Program.insertBridge#*
 //@   use simInd(old(*p), p.instructions, 0, A0) at after loop 1
 //@   use runLP(old(*p), 0, A0) at after loop 1
 
@@ -906,11 +903,12 @@ package seccomp
 //@   use endBelowNone(p, p.nextLabel + 1) at after assign action#1
 //@   use endBelowMono(p, next, next + 1) at after assign next#1
 //@   use pendMono(p, ls1(action), ls2(action, next)) at after assign next#1
-//@   use hopeKeepEnd(p, action, next, next) at before call Program.SetLabel#1
-//@   use hopeKeepNoJump(p, next) at before call Program.SetLabel#2
-//@   use pendMono(p, store(store(ls2(action, next), action, false), next, false), emptyLabels) at before call Program.Assemble#1
-//@   use hopeKeepNoJump(p, action) at before call Program.SetLabel#3
-//@   use pendMono(p, store(ls1(action), action, false), emptyLabels) at before call Program.Assemble#2
+// attached to every call (the label argument says which case it is; an item that names `next` applies only where
+// `next` exists), so that the order of the two epilogues in the source does not matter
+//@   use hopeKeepEnd(p, call.arg0, next, next) at before call Program.SetLabel#*
+//@   use hopeKeepNoJump(p, call.arg0) at before call Program.SetLabel#*
+//@   use pendMono(p, store(store(ls2(action, next), action, false), next, false), emptyLabels) at before call Program.Assemble#*
+//@   use pendMono(p, store(ls1(action), action, false), emptyLabels) at before call Program.Assemble#*
 //@   use groupValidLink(g) at entry
 //@   ghost p.G = Ginit(A0) at before call Program.NewLabel#1
 //@   ghost p.R = emptyRets at before call Program.NewLabel#1
